@@ -43,6 +43,10 @@ def probe(rng):
             if isinstance(v, float) and v == v and not math.isinf(v):
                 v = struct.unpack('>f', struct.pack('>f', v))[0] if abs(v) < 3e38 else 1.0
         return name, v, ('float', float(v))
+    if k in ('IDENT', 'ASCII') and rng.random() < 0.12:
+        # non-str values are converted with str(): 1, 1.0 and True are equal (and hash equal) but have different texts
+        v = rng.choice([1, 1.0, True, 0, 0.0, False, 7, 7.0])
+        return k, v, ('str', str(v))
     if k == 'IDENT':
         n = rng.choice([0, 1, 127, 128, 200, 255, 256, 300])
         s = ''.join(rng.choice('ABCDEFGHIJKLMNOPQRSTUVWXYZ0123456789-_') for _ in range(n))
